@@ -17,6 +17,7 @@ package guardiand
 //@     invariant [cache-alive] cache != nil
 //@     iter-ensures [remember-only-if-sent] unchanged("chan") ==> (forall k in dom(cache) :: old(indom(cache, k)) && cache[k] == old(cache[k]))
 //@     iter-ensures [routing-table-untouched] mapUnchanged(chainObsvReqC)
+//@     iter-ensures [remembered-with-the-time-of-forwarding] forall k in dom(cache) :: !old(indom(cache, k)) ==> tns(cache[k]) >= old(ghostNow())
 //@   at [channel <- req]:
 //@     assert [names-chain] r.chainId == req.ChainId
 //@     assert [routes-to-that-watcher] indom(chainObsvReqC, r.chainId) && channel == chainObsvReqC[r.chainId]
